@@ -355,7 +355,12 @@ def _ops():
     # ---- plot data
     op("plot.build_plot_data")(lambda e: (build_plot_data, (e.t,), {"flat": e.rng.random() < 0.5, "keep_samples": e.rng.random() < 0.5,
                                                                    "remove_empties": e.rng.random() < 0.7}))
-    del Triangle
+    # ---- plotting entry points (chart construction only; nothing is rendered)
+    for nm in ["plot_right_edge", "plot_data_completeness", "plot_heatmap", "plot_atas", "plot_growth_curve",
+               "plot_mountain", "plot_ballistic", "plot_broom", "plot_drip", "plot_hose", "plot_sunset", "plot_histogram"]:
+        def mkp(nm=nm):
+            return lambda e: (getattr(Triangle, nm), (e.t,), {})
+        ops[f"plot.{nm}"] = mkp()
     return ops
 
 
